@@ -64,3 +64,27 @@ func VerifH_C19_PrimeGenerator() {
 	}
 	vCover("C19-primegen-reached")
 }
+
+// A ring is accepted only over primes congruent to 1 modulo its NthRoot (2N in the standard ring, 4N in the
+// conjugate-invariant one): primes that are 1 modulo half of it are refused, NTT-friendly ones accepted; the
+// transform tables of an accepted ring are those of the definition (C01).
+func VerifSetup_TryRing(n int, q uint64, ci bool) bool {
+	var err error
+	if ci {
+		_, err = NewRingConjugateInvariant(n, []uint64{q})
+	} else {
+		_, err = NewRing(n, []uint64{q})
+	}
+	return err == nil
+}
+
+func VerifH_C19_RingAcceptsOnlyNTTFriendlyPrimes() {
+	// 113 = 1 mod 16, not 1 mod 32; 97 = 1 mod 32, not 1 mod 64; 193 = 1 mod 64; 12289 = 1 mod 4096; 65 is not prime
+	vAssert(!VerifSetup_TryRing(16, 113, false), "standard-ring-N16-refuses-a-prime-that-is-1-mod-N-only")
+	vAssert(VerifSetup_TryRing(16, 97, false), "standard-ring-N16-accepts-a-prime-that-is-1-mod-2N")
+	vAssert(!VerifSetup_TryRing(16, 97, true), "conjugate-invariant-ring-N16-refuses-a-prime-that-is-1-mod-2N-only")
+	vAssert(VerifSetup_TryRing(16, 193, true), "conjugate-invariant-ring-N16-accepts-a-prime-that-is-1-mod-4N")
+	vAssert(!VerifSetup_TryRing(32, 97, false), "standard-ring-N32-refuses-a-prime-that-is-1-mod-N-only")
+	vAssert(VerifSetup_TryRing(2048, 12289, false) && !VerifSetup_TryRing(4096, 12289, false), "standard-ring-boundary-for-12289")
+	vCover("C19-ring-acceptance-reached")
+}
